@@ -391,8 +391,8 @@ func TestVerifC18(t *testing.T) {
 				}
 				time.Sleep(500 * time.Millisecond) // the dispatcher is woken by the commit: it has read the first waiting entry
 				trailing := uint64(10240)
-				if pending == 1 && r.intn(2) == 0 {
-					trailing = 0
+				if forcedTrailing == 0 {
+					time.Sleep(1500 * time.Millisecond) // the compacting variant (corpus only) depends on that read: be generous
 				}
 				if forcedTrailing >= 0 {
 					trailing = uint64(forcedTrailing)
